@@ -422,6 +422,166 @@ func (e *env) firstDiff(req string, wire [][]byte) string {
 	return "none"
 }
 
+// ---------------------------------------------------------------- e2e session: several messages over ONE pair of channels
+
+func (e *env) session(c e2eCase, nMsgs int) {
+	pol := short(c.uri)
+	nS, nR := e.rnd.Bytes(32), e.rnd.Bytes(32)
+	chanID, tokID := uint32(e.rnd.U64()), uint32(e.rnd.U64())
+	seq := uint32(e.rnd.Intn(1024))
+	switch e.rnd.Intn(3) {
+	case 0:
+		seq = 4294966272 - uint32(e.rnd.Intn(4)) // wraps inside the session
+	case 1:
+		seq = 4294967295 - uint32(e.rnd.Intn(2))
+	}
+	reqSeed := uint32(e.rnd.Intn(1 << 30))
+	sTCP, wireIn, err := tcpPair()
+	if err != nil {
+		e.r.InfraError = "tcp: " + err.Error()
+		return
+	}
+	wireOut, rTCP, err := tcpPair()
+	if err != nil {
+		e.r.InfraError = "tcp: " + err.Error()
+		return
+	}
+	defer sTCP.Close()
+	defer wireIn.Close()
+	defer wireOut.Close()
+	defer rTCP.Close()
+	ack := &uacp.Acknowledge{ReceiveBufSize: uint32(c.cs), SendBufSize: uint32(c.cs), MaxChunkCount: 0, MaxMessageSize: 0}
+	sConn, _ := uacp.NewConn(sTCP, ack)
+	rConn, _ := uacp.NewConn(rTCP, ack)
+	snd, err := uasc.VerifOpenChannel(sConn, e.cfg(c, reqSeed), c.fromSrv, chanID, tokID, seq, nS, nR, make(chan error, 4))
+	if err != nil {
+		e.r.InfraError = "VerifOpenChannel(sender): " + err.Error()
+		return
+	}
+	rcv, err := uasc.VerifOpenChannel(rConn, e.cfg(c, 1), !c.fromSrv, chanID, tokID, 5, nR, nS, make(chan error, 4))
+	if err != nil {
+		e.r.InfraError = "VerifOpenChannel(receiver): " + err.Error()
+		return
+	}
+	mb := int(snd.VerifActive().MaxBodySize())
+	canon := fmt.Sprintf("session %s mode=%d cs=%d fromSrv=%v msgs=%d seq=%d", pol, c.mode, c.cs, c.fromSrv, nMsgs, seq)
+	e.r.Count(canon+" "+h.Hex(nS[:4]), true)
+	e.r.Hit("session")
+	ctx, cancel := context.WithTimeout(context.Background(), 60*time.Second)
+	defer cancel()
+	var allWire [][]byte
+	var msgToks, implRecv []string
+	for k := 0; k < nMsgs; k++ {
+		want := []int{60 + e.rnd.Intn(200), mb, mb + 1 + e.rnd.Intn(mb), 2 * mb}[e.rnd.Intn(4)]
+		var svc interface{}
+		var reqID uint32
+		if c.fromSrv {
+			b0, _ := bodyOf(payloadResponse(nil, 77))
+			if want < len(b0)+1 {
+				want = len(b0) + 1
+			}
+			svc = payloadResponse(e.rnd.Bytes(want-len(b0)), 77)
+			reqID = uint32(e.rnd.U64())
+		} else {
+			r0 := payloadRequest(nil)
+			r0.SetHeader(&ua.RequestHeader{AuthenticationToken: ua.NewTwoByteNodeID(0), Timestamp: time.Now(), RequestHandle: 1, TimeoutHint: 1})
+			b0, _ := bodyOf(r0)
+			if want < len(b0)+1 {
+				want = len(b0) + 1
+			}
+			svc = payloadRequest(e.rnd.Bytes(want - len(b0)))
+			reqID = reqSeed + uint32(k) + 1
+		}
+		sendErr := make(chan error, 1)
+		go func() {
+			defer func() {
+				if x := recover(); x != nil {
+					sendErr <- fmt.Errorf("panic in the send path: %v", x)
+				}
+			}()
+			if c.fromSrv {
+				sendErr <- snd.SendResponseWithContext(ctx, reqID, svc.(ua.Response))
+			} else {
+				sendErr <- snd.SendRequestWithTimeout(ctx, svc.(ua.Request), nil, 20*time.Second, nil)
+			}
+		}()
+		wireIn.SetReadDeadline(time.Now().Add(60 * time.Second))
+		var wire [][]byte
+		for {
+			w, err := readWireChunk(wireIn)
+			if err != nil {
+				e.r.InfraError = fmt.Sprintf("session wire read: %v", err)
+				return
+			}
+			wire = append(wire, w)
+			if len(w) < 4 || w[3] != 'C' || len(wire) > 4096 {
+				break
+			}
+		}
+		if err := <-sendErr; err != nil {
+			e.r.Fail(canon, "", fmt.Sprintf("message %d: send failed: %v", k, err))
+			return
+		}
+		body, _ := bodyOf(svc)
+		msgToks = append(msgToks, fmt.Sprintf("%d:%s", reqID, h.Hex(body)))
+		allWire = append(allWire, wire...)
+		got := make(chan *uasc.MessageBody, 1)
+		go func() {
+			defer func() {
+				if x := recover(); x != nil {
+					got <- &uasc.MessageBody{Err: fmt.Errorf("panic in Receive: %v", x)}
+				}
+			}()
+			got <- rcv.Receive(ctx)
+		}()
+		for _, w := range wire {
+			wireOut.SetWriteDeadline(time.Now().Add(30 * time.Second))
+			if _, err := wireOut.Write(w); err != nil {
+				e.r.InfraError = "wire write: " + err.Error()
+				return
+			}
+		}
+		var msg *uasc.MessageBody
+		select {
+		case msg = <-got:
+		case <-time.After(60 * time.Second):
+			e.r.InfraError = "session: receiver did not return within 60 s"
+			return
+		}
+		if msg.Err != nil {
+			e.r.Fail(canon, "", fmt.Sprintf("message %d of the session: receiver: %v", k, msg.Err))
+			return
+		}
+		var gotSvc interface{}
+		if c.fromSrv {
+			gotSvc = msg.Response()
+		} else {
+			gotSvc = msg.Request()
+		}
+		gb, err := bodyOf(gotSvc)
+		if err != nil || !bytes.Equal(gb, body) || msg.RequestID != reqID {
+			e.r.Fail(canon, "", fmt.Sprintf("message %d of the session is not received as sent (request id %d/%d, %d/%d bytes)", k, msg.RequestID, reqID, len(gb), len(body)))
+			return
+		}
+		implRecv = append(implRecv, fmt.Sprintf("%d.%d.%d.%s", msg.RequestID, msg.SecureChannelID, len(gb), sha(gb)))
+	}
+	if uint64(seq)+uint64(len(allWire)) > 4294966272 {
+		e.r.Hit("session:counter-wraps")
+	}
+	e.r.Hit(fmt.Sprintf("session-chunks:%d", min(len(allWire)/4*4, 12)))
+	e.r.Sample(fmt.Sprintf("%s chunks=%d", canon, len(allWire)))
+	impl := fmt.Sprintf("ok %d %d", snd.VerifActive().SequenceNumber(), len(allWire))
+	hexes := make([]string, len(allWire))
+	for i, w := range allWire {
+		impl += fmt.Sprintf(" %d.%c.%d.%s", len(w), w[3], binary.LittleEndian.Uint32(w[4:]), sha(w))
+		hexes[i] = h.Hex(w)
+	}
+	e.r.Compare(e.d, fmt.Sprintf("session %s %d %d %d %d %d %s %s %s", pol, c.mode, c.cs, seq, chanID, tokID, h.Hex(nS), h.Hex(nR), strings.Join(msgToks, " ")), impl)
+	e.r.Compare(e.d, fmt.Sprintf("recvmany %s %d 0 0 %s %s %s", pol, c.mode, h.Hex(nR), h.Hex(nS), strings.Join(hexes, " ")),
+		fmt.Sprintf("%d %s", len(implRecv), strings.Join(implRecv, " ")))
+	e.r.TracesValidated++
+}
+
 // ---------------------------------------------------------------- instance level
 
 // safeSec calls signAndEncrypt; a panic of the implementation is an error here.
@@ -735,7 +895,7 @@ func main() {
 	// --- e2e
 	sizes := []int{8192, 8193 + e.rnd.Intn(15), 8208 + e.rnd.Intn(4000), 12208 + e.rnd.Intn(20000)}
 	if o.Thorough() {
-		for cs := 8192; cs <= 8192+64; cs++ {
+		for cs := 8192; cs <= 8192+40; cs++ {
 			sizes = append(sizes, cs)
 		}
 		sizes = append(sizes, 65535, 65536, 1<<17+5, 1<<20)
@@ -772,6 +932,17 @@ func main() {
 		e.e2e(e2eCase{p.uri, p.mode, 65535, i%2 == 1, []int{2*mb + 1, mb - 1, e.rnd.Intn(3 * mb)}[i%3], -1})
 	}
 
+	// --- sessions: several messages over one pair of channels
+	for i, p := range pms {
+		for k := 0; k < o.N(2, 12); k++ {
+			e.session(e2eCase{p.uri, p.mode, 8192 + e.rnd.Intn(64), (i+k)%2 == 0, 0, -1}, 3+e.rnd.Intn(4))
+			if r.InfraError != "" {
+				r.Write(o.Out)
+				return
+			}
+		}
+	}
+
 	// --- instance level
 	for _, mbs := range []uint32{0, 1, 2, 5, 16, 4096, 8120} {
 		for _, k := range []int{0, 1, 2, 3} {
@@ -793,7 +964,7 @@ func main() {
 		for _, n := range []int{0, 1, 2, 3, 7, 8, 15, 16, 17, e.rnd.Intn(2000), e.rnd.Intn(9000)} {
 			e.secDiff(p.uri, p.mode, n)
 		}
-		for i := 0; i < o.N(0, 200); i++ {
+		for i := 0; i < o.N(0, 80); i++ {
 			e.secDiff(p.uri, p.mode, e.rnd.Intn(20000))
 		}
 	}
@@ -830,7 +1001,7 @@ func main() {
 			}
 		}
 	}
-	for _, b := range []string{"vad:intact:ok", "vad:bitflip:err", "vad:truncated:err", "seq:wraps", "seq:first-chunk-0", "limits:none", "body:exact-multiple", "enc:maxBody=0", "opn:extra-padding sender=true receiver=false", "opn:extra-padding sender=false receiver=true", "opn:extra-padding sender=true receiver=true", "opn:extra-padding sender=false receiver=false"} {
+	for _, b := range []string{"vad:intact:ok", "vad:bitflip:err", "vad:truncated:err", "session", "session:counter-wraps", "seq:wraps", "seq:first-chunk-0", "limits:none", "body:exact-multiple", "enc:maxBody=0", "opn:extra-padding sender=true receiver=false", "opn:extra-padding sender=false receiver=true", "opn:extra-padding sender=true receiver=true", "opn:extra-padding sender=false receiver=false"} {
 		if r.Distribution[b] == 0 {
 			r.Unreached = append(r.Unreached, b)
 		}
